@@ -27,7 +27,7 @@ import (
 
 const M = ringlab.M
 
-var scenarios = []string{"nil-pred-at-lock", "nil-pred-before", "pred-self", "dup-id", "adjacent-id", "succ-transferring", "succ-leaving", "leave-then-join-race"}
+var scenarios = []string{"nil-pred-at-lock", "nil-pred-before", "pred-self", "dup-id", "adjacent-id", "succ-transferring", "succ-leaving", "leave-then-join-race", "stale-dead-pred"}
 
 type jcase struct {
 	Name     string `json:"name"`
@@ -217,11 +217,37 @@ func runCase(c jcase, rep *batch.Report) batch.CaseResult {
 		for via == p {
 			via = members[rng.Intn(len(members))]
 		}
+	case "stale-dead-pred":
+		if n < 3 {
+			break
+		}
+		// the predecessor of succ has left and succ still names it: periodic tasks are parked, so neither
+		// checkPredecessor drops the pointer nor a Notify replaces it while the request is served
+		e := ringlab.ExpectFor(sorted, succID)
+		p := lab.Member(e.Pred)
+		if !lab.FreezePeriodic(20 * time.Second) {
+			res.Inconclusive = "periodic tasks could not be parked within 20 s"
+			return res
+		}
+		p.Leave()
+		if vp := succ.Node.VerifPointers(); p.State() == chord.Left && vp.Predecessor != nil && *vp.Predecessor == p.ID {
+			windowHit.Store(true)
+			stateSeen = fmt.Sprintf("successor %s, its predecessor pointer names %d which is %s", succ.State(), p.ID, p.State())
+		}
+		if c.Seed%2 == 0 {
+			via = succ // asked directly: no other node stands between the joiner and the answer
+		} else {
+			for via == p {
+				via = members[rng.Intn(len(members))]
+			}
+		}
+		go func() { time.Sleep(time.Duration(5+rng.Intn(20)) * time.Millisecond); lab.Unfreeze() }()
 	default:
 		windowHit.Store(true)
 	}
 
 	jerr := joiner.Join(via)
+	lab.Unfreeze()
 	rel()
 	bg.Wait()
 	lab.ClearCallbacks()
@@ -234,9 +260,9 @@ func runCase(c jcase, rep *batch.Report) batch.CaseResult {
 		}
 	case chord.ErrorIsRetryable(jerr):
 	case errors.Is(jerr, chord.ErrDuplicateJoinerID) && dupExpected:
-	case errors.Is(jerr, chord.ErrNodeGone) && (c.Scenario == "succ-leaving" || c.Scenario == "leave-then-join-race"):
-		// the contacted node has left in the meantime: not an internal error of a serving node
-		rep.Count("join_refused_node_gone", 1)
+	case errors.Is(jerr, chord.ErrNodeGone) && via.State() != chord.Active && via.State() != chord.Transferring:
+		// the contacted node itself has left in the meantime: not an internal error of a serving node
+		rep.Count("join_refused_contacted_node_gone", 1)
 	default:
 		res.Violations = append(res.Violations, batch.Viol{Key: "non-retryable-join-error:" + c.Scenario, What: fmt.Sprintf("Join of %d via %d (successor %d, scenario %s) returned the non-retryable error %q", jid, via.ID, succID, c.Scenario, jerr), Witness: map[string]any{"case": c, "ring": ids, "joiner": jid, "via": via.ID, "error": jerr.Error()}})
 	}
@@ -316,7 +342,7 @@ func main() {
 	child.Register("cases", runCases)
 	child.Main()
 	r := ev.Start("C08", "exploration")
-	r.SetRule("a real Join is issued into a live ring of 1..6 real LocalNodes whose contacted successor is in a constructed state: predecessor cleared exactly when the request holds the membership lock (hook rtj.locked) or just before; predecessor == self (one-node ring); joiner id equal / adjacent (+-1,+-2) to a member id; successor held in Transferring by another join (blocked at a hook) or in Leaving by its own leave (blocked at a hook); predecessor of the successor leaving concurrently; direct and proxied wiring; distinct+non-trivial = (scenario, ring size, wiring, outcome class) for cases whose window was hit")
+	r.SetRule("a real Join is issued into a live ring of 1..6 real LocalNodes whose contacted successor is in a constructed state: predecessor cleared exactly when the request holds the membership lock (hook rtj.locked) or just before; predecessor == self (one-node ring); joiner id equal / adjacent (+-1,+-2) to a member id; successor held in Transferring by another join (blocked at a hook) or in Leaving by its own leave (blocked at a hook); predecessor of the successor leaving concurrently; predecessor of the successor gone with the pointer still naming it (periodic tasks parked), asked directly or through another member; direct and proxied wiring; distinct+non-trivial = (scenario, ring size, wiring, outcome class) for cases whose window was hit")
 	r.Assume("an equal joiner id is answered with ErrDuplicateJoinerID (not a valid joiner); ErrNodeGone from a contacted node that has itself left meanwhile is not an internal error of a serving node")
 	rng := r.Rand("cases")
 	reps := r.Pick(4, 60)
